@@ -25,6 +25,7 @@ typedef struct ticket {
 static ticket T[MAXT]; static int nT;
 static ticket *pool[12]; static int npool;          /* tickets the program still holds a reference on */
 static int in_call; static int bad_cb;  static char bad_cb_msg[200];
+static int glyph_heavy;
 static int broken;                                    /* a violation was reported: stop this history */
 static char hist[6000]; static int hl;
 static const char *kind_name[] = { "bits", "bits(caller storage)", "solid", "linear", "radial", "conical" };
@@ -211,8 +212,8 @@ static void life_case (long idx, vf_rng *r)
     int steps = (int)vf_range (r, 6, 70);
     uint64_t path = 0;
     for (int s = 0; s < steps && !broken; s++) {
-        int k = (int)(vf_next (r) % 100);
-        ticket *t = npool ? pool[vf_next (r) % npool] : NULL;
+        int k = (int)(vf_next (r) % 100); if (glyph_heavy && npool && vf_chance (r, 1, 2)) k = 96;       /* the 8-slot glyph table build: half of the steps are glyph-cache calls */
+        ticket *t = npool ? pool[vf_next (r) % npool] : NULL; if (k == 96 && t && t->kind > 1) { for (int i = 0; i < npool; i++) if (pool[i]->kind <= 1) { t = pool[i]; break; } }
         path = vf_mix (path, (uint64_t)k / 8);
         if (!t || k < 16) { do_create (r); }
         else if (k < 36) do_unref (t);
@@ -229,7 +230,8 @@ static void life_case (long idx, vf_rng *r)
         else if (k < 94) do_use (r);
         else if (t->kind <= 1) {
             if (!cache) { LIB (cache = pixman_glyph_cache_create ()); if (!cache) continue; }
-            if (nglyph < 32 && vf_chance (r, 2, 3)) { if (!frozen) { LIB (pixman_glyph_cache_freeze (cache)); frozen = 1; }
+            if (frozen && glyph_heavy && vf_chance (r, 1, 4)) { LIB (pixman_glyph_cache_thaw (cache)); frozen = 0; nglyph = 0; H (" thaw"); }      /* survivors unknown after a thaw: forget the keys */
+            else if (nglyph < 32 && vf_chance (r, glyph_heavy ? 1 : 2, glyph_heavy ? 2 : 3)) { if (!frozen) { LIB (pixman_glyph_cache_freeze (cache)); frozen = 1; }
                 const void *g; int key = s + 1; if (nglyph && vf_chance (r, 1, 3)) { key = gkeys[vf_next (r) % nglyph]; vf_count ("glyph_inserts_of_a_key_already_present", 1); }     /* a second entry for a key that is present: legal, the entries shadow each other and are all released with the cache */
                 LIB (g = pixman_glyph_cache_insert (cache, (void *)(uintptr_t)0x10, (void *)(uintptr_t)(key * 8), 1, 1, t->img)); if (g) gkeys[nglyph++] = key; H (" G%d", t->id); vf_count ("glyph_inserts", 1); }
             else if (nglyph) { int key = gkeys[--nglyph]; const void *g; LIB (g = pixman_glyph_cache_lookup (cache, (void *)(uintptr_t)0x10, (void *)(uintptr_t)(key * 8))); if (g) LIB (pixman_glyph_cache_remove (cache, (void *)(uintptr_t)0x10, (void *)(uintptr_t)(key * 8))); H (" g"); vf_count ("glyph_removes", 1); }
@@ -250,4 +252,5 @@ static void life_case (long idx, vf_rng *r)
     if (idx < 3) vf_sample ("history:%s", hist);
 }
 
-int main (int argc, char **argv) { return vf_main (argc, argv, "C20", NULL, life_case, NULL); }
+static void init (void) { glyph_heavy = strstr (vf.config, "glyphs") != NULL; }
+int main (int argc, char **argv) { return vf_main (argc, argv, "C20", init, life_case, NULL); }
